@@ -51,6 +51,14 @@ class Failure:
         return '%s|%s' % (self.func, self.kind)
 
 
+class UnitAbort(BaseException):
+    """Raised when one unit has already recorded FAILFAST violations: the verdict is settled, the rest
+    of the unit is skipped so that a badly broken tree (e.g. thousands of hangs) is reported quickly."""
+
+
+FAILFAST = int(os.environ.get('VERIF_FAILFAST', '3000'))
+
+
 class Result:
     """Accumulates what one unit (or the merged run) covered."""
 
@@ -80,12 +88,18 @@ class Result:
             self.known_seen[(f.sig, f.key)] = self.known_seen.get((f.sig, f.key), 0) + 1
             return
         self.nviol[f.sig] = self.nviol.get(f.sig, 0) + 1
+        self._nfail = getattr(self, '_nfail', 0) + 1
         lst = self.viol.setdefault(f.sig, [])
         if any(t[1] == f.key for t in lst):
             return
         lst.append((f.size, f.key, f.case, f.detail))
         lst.sort(key=lambda t: (t[0], t[1]))
         del lst[KEYS_PER_SIG:]
+        self.check_failfast()
+
+    def check_failfast(self):
+        if getattr(self, '_nfail', 0) >= FAILFAST:
+            raise UnitAbort()
 
     def merge(self, o):
         for k, v in o.c.items():
@@ -164,6 +178,8 @@ def _worker(args):
     res = Result()
     try:
         mod.run_unit(unit, res)
+    except UnitAbort:
+        res.count('units_aborted_after_%d_violations' % FAILFAST)
     except BaseException:
         return ('error', repr(unit), traceback.format_exc())
     for sig, lst in res.viol.items():
